@@ -192,3 +192,138 @@ Proof. unfold accumulate, accumulate_with. apply sort_by_perm. Qed.
 
 Lemma accumulate_sorted cur new : StronglySorted ule (accumulate cur new).
 Proof. unfold accumulate, accumulate_with. apply sort_by_sorted. Qed.
+
+(* ---- standalone -> consumer changeover: the returned updates hand the consensus set over to the provider's set ---- *)
+Lemma find_app_first {A} (f : A -> bool) l1 l2 :
+  find f (l1 ++ l2) = match find f l1 with Some x => Some x | None => find f l2 end.
+Proof. induction l1 as [|a t IH]; cbn [app find]; [reflexivity|]. destruct (f a); [reflexivity | exact IH]. Qed.
+
+Lemma find_none_intro {A} (f : A -> bool) l : (forall x, In x l -> f x = false) -> find f l = None.
+Proof.
+  induction l as [|a t IH]; intros H; cbn [find]; [reflexivity|].
+  rewrite (H a (or_introl eq_refl)). apply IH. intros x Hx. apply H. now right.
+Qed.
+
+Lemma lookup_remove_key k k' m :
+  lookup k (remove_key k' m) = if k' =? k then None else lookup k m.
+Proof.
+  unfold lookup, remove_key. induction m as [|x t IH]; cbn [filter find].
+  - now destruct (k' =? k).
+  - destruct (ukey x =? k') eqn:E1; cbn [negb].
+    + rewrite IH. apply Z.eqb_eq in E1. destruct (k' =? k) eqn:E2; [reflexivity|].
+      rewrite E1, E2. reflexivity.
+    + cbn [find]. destruct (ukey x =? k) eqn:E3.
+      * destruct (k' =? k) eqn:E2; [|reflexivity].
+        apply Z.eqb_eq in E2, E3. apply Z.eqb_neq in E1. lia.
+      * exact IH.
+Qed.
+
+Lemma lookup_map_set_any k u m :
+  lookup k (map_set u m) = if ukey u =? k then Some (upow u) else lookup k m.
+Proof.
+  unfold lookup. induction m as [|x t IH]; cbn [map_set find].
+  - destruct (ukey u =? k); reflexivity.
+  - destruct (ukey x =? ukey u) eqn:E1; cbn [find].
+    + apply Z.eqb_eq in E1. rewrite E1. destruct (ukey u =? k); reflexivity.
+    + destruct (ukey x =? k) eqn:E2.
+      * destruct (ukey u =? k) eqn:E3; [|reflexivity].
+        apply Z.eqb_eq in E2, E3. apply Z.eqb_neq in E1. lia.
+      * exact IH.
+Qed.
+
+Lemma lookup_tm1 k u m :
+  lookup k (tm1 m u) = if ukey u =? k then (if upow u =? 0 then None else Some (upow u)) else lookup k m.
+Proof.
+  unfold tm1. destruct (upow u =? 0).
+  - apply lookup_remove_key.
+  - apply lookup_map_set_any.
+Qed.
+
+(* last writer wins: the consensus engine's power of k after a batch of updates *)
+Lemma lookup_tm_apply k us : forall m,
+  lookup k (tm_apply us m) =
+  match find (fun x => ukey x =? k) (rev us) with
+  | Some u => if upow u =? 0 then None else Some (upow u)
+  | None => lookup k m
+  end.
+Proof.
+  unfold tm_apply. induction us as [|u t IH]; intros m; cbn [fold_left rev find]; [reflexivity|].
+  rewrite IH, find_app_first.
+  destruct (find (fun x => ukey x =? k) (rev t)); [reflexivity|].
+  cbn [find]. rewrite lookup_tm1. destruct (ukey u =? k); reflexivity.
+Qed.
+
+Lemma has_key_true k l : has_key k l = true <-> exists x, In x l /\ ukey x = k.
+Proof.
+  unfold has_key. rewrite existsb_exists. split; intros [x [Hx E]]; exists x; split; auto.
+  - now apply Z.eqb_eq. - now apply Z.eqb_eq.
+Qed.
+
+Lemma zero_part_spec init sa x :
+  In x (flat_map (fun s => if has_key (ukey s) init then [] else [(ukey s, 0)]) sa) <->
+  exists s, In s sa /\ has_key (ukey s) init = false /\ x = (ukey s, 0).
+Proof.
+  rewrite in_flat_map. split.
+  - intros [s [Hs Hx]]. exists s. destruct (has_key (ukey s) init); [destruct Hx|].
+    destruct Hx as [Hx|[]]. auto.
+  - intros [s [Hs [Hk Hx]]]. exists s. split; [exact Hs|]. rewrite Hk. now left.
+Qed.
+
+Lemma changeover_hands_over init sa k :
+  lookup k (tm_apply (changeover_updates init sa) sa) =
+  match lookup_last k init with Some p => if p =? 0 then None else Some p | None => None end.
+Proof.
+  rewrite lookup_tm_apply. unfold changeover_updates. rewrite rev_app_distr, find_app_first.
+  unfold lookup_last, lookup. unfold upd in *.
+  match goal with |- context [rev (flat_map ?f sa)] => set (Zs := flat_map f sa) end.
+  assert (HZ : forall x, In x Zs <-> exists s, In s sa /\ has_key (ukey s) init = false /\ x = (ukey s, 0))
+    by (intros x; apply zero_part_spec).
+  clearbody Zs.
+  match goal with |- context [find ?f (rev init)] => destruct (find f (rev init)) as [u|] eqn:Ei end.
+  - (* k is in the initial set: no zero-power update for k was appended *)
+    match goal with |- context [find ?f (rev Zs)] => destruct (find f (rev Zs)) as [z|] eqn:Ez end; [|reflexivity].
+    exfalso. apply find_some in Ez. destruct Ez as [Hz Ezk]. apply in_rev in Hz. apply HZ in Hz.
+    destruct Hz as [s [_ [Hk ->]]]. cbn [ukey fst] in Ezk. apply Z.eqb_eq in Ezk. subst k.
+    apply find_some in Ei. destruct Ei as [Hu Eu]. apply in_rev in Hu. apply Z.eqb_eq in Eu.
+    assert (has_key (ukey s) init = true) by (apply has_key_true; exists u; auto). congruence.
+  - match goal with |- context [find ?f (rev Zs)] => destruct (find f (rev Zs)) as [z|] eqn:Ez end.
+    + apply find_some in Ez. destruct Ez as [Hz _]. apply in_rev in Hz. apply HZ in Hz.
+      destruct Hz as [s [_ [_ ->]]]. reflexivity.
+    + (* k neither in the initial set nor among the appended removals: then it was not a standalone validator *)
+      rewrite find_none_intro; [reflexivity|].
+      intros s Hs. apply Z.eqb_neq. intros E.
+      assert (Hk : has_key (ukey s) init = false).
+      { destruct (has_key (ukey s) init) eqn:Hk; [|reflexivity]. apply has_key_true in Hk.
+        destruct Hk as [x [Hx Ex]]. pose proof (find_none _ _ Ei x) as Hf. cbv beta in Hf.
+        rewrite <- in_rev in Hf. specialize (Hf Hx). apply Z.eqb_neq in Hf. lia. }
+      pose proof (find_none _ _ Ez (ukey s, 0)) as Hf. cbv beta in Hf. rewrite <- in_rev in Hf.
+      assert (Hin : In (ukey s, 0) Zs) by (apply HZ; exists s; auto).
+      specialize (Hf Hin). cbn [ukey fst] in Hf. apply Z.eqb_neq in Hf. lia.
+Qed.
+
+Lemma changeover_hands_over_pos init sa k :
+  (forall x, In x init -> 0 < upow x) ->
+  lookup k (tm_apply (changeover_updates init sa) sa) = lookup_last k init.
+Proof.
+  intros Hpos. rewrite changeover_hands_over. unfold lookup_last, lookup.
+  destruct (find (fun x => ukey x =? k) (rev init)) as [u|] eqn:E; [|reflexivity].
+  apply find_some in E. destruct E as [Hu _]. apply in_rev in Hu. specialize (Hpos u Hu).
+  destruct (upow u =? 0) eqn:E0; [apply Z.eqb_eq in E0; lia | reflexivity].
+Qed.
+
+(* the returned slice starts with the stored initial set, unchanged and in its stored order *)
+Lemma changeover_prefix init sa : firstn (length init) (changeover_updates init sa) = init.
+Proof. unfold changeover_updates. rewrite firstn_app, Nat.sub_diag, firstn_all. cbn [firstn]. apply app_nil_r. Qed.
+
+(* every appended update removes a standalone validator that the provider set does not contain *)
+Lemma changeover_tail init sa x :
+  In x (skipn (length init) (changeover_updates init sa)) ->
+  upow x = 0 /\ has_key (ukey x) init = false /\ has_key (ukey x) sa = true.
+Proof.
+  unfold changeover_updates. rewrite skipn_app, Nat.sub_diag, skipn_all. cbn [skipn app].
+  intros Hx. apply zero_part_spec in Hx. destruct Hx as [s [Hs [Hk ->]]]. cbn [upow ukey fst snd].
+  repeat split; [exact Hk|]. apply has_key_true. exists s. auto.
+Qed.
+
+Lemma changeover_complete_spec init_h h : changeover_complete init_h h = true <-> init_h + 2 <= h.
+Proof. unfold changeover_complete. apply Z.leb_le. Qed.
